@@ -8,13 +8,14 @@ import (
 
 // Options bound an exploration.
 type Options struct {
-	Bound    int       // deviation bound (preemptions + early expiries); free choices are always expanded
-	MaxSteps int       // per-execution horizon
-	MaxExecs int64     // cap on executions (0 = none)
-	Deadline time.Time // real-time cap (zero = none); hitting it yields Exhaustive=false, never a verdict
-	NoCache  bool      // disable happens-before caching (cross-validation)
-	BoundAll bool      // every departure from the default scheduler is a deviation (see sched.BoundAll)
-	Trace    bool
+	Bound        int       // deviation bound (preemptions + early expiries); free choices are always expanded
+	MaxSteps     int       // per-execution horizon
+	MaxExecs     int64     // cap on executions (0 = none)
+	Deadline     time.Time // real-time cap (zero = none); hitting it yields Exhaustive=false, never a verdict
+	NoCache      bool      // disable happens-before caching (cross-validation)
+	NoEarlyClock bool      // timers never overtake runnable threads
+	BoundAll     bool      // every departure from the default scheduler is a deviation (see sched.BoundAll)
+	Trace        bool
 }
 
 // Failure is an oracle verdict on one execution.
@@ -127,8 +128,8 @@ type Judge func(e *Exec) (outcome string, digest string, fail *Failure)
 // Explore runs body under every schedule within opt and judges each complete execution.
 func Explore(opt Options, body func(), judge Judge) *Stats {
 	st := &Stats{Exhaustive: true, Outcomes: map[string]int64{}}
-	BoundAll = opt.BoundAll
-	defer func() { BoundAll = false }()
+	BoundAll, NoEarlyClock = opt.BoundAll, opt.NoEarlyClock
+	defer func() { BoundAll, NoEarlyClock = false, false }()
 	if opt.MaxSteps == 0 {
 		opt.MaxSteps = 200000
 	}
